@@ -140,7 +140,7 @@ class Smt:
         return "\n".join(self.decls + distinct + ["(assert %s)" % a for a in self.asserts] + ["(assert %s)" % goal, "(check-sat)", "(get-model)"])
 
 
-CTOR_DISCR = {"None": 0, "Some": 1, "Ok": 0, "Err": 1, "Continue": 0, "Break": 1}
+CTOR_DISCR = {"None": 0, "Some": 1, "Ok": 0, "Err": 1, "Continue": 0, "Break": 1, "Occupied": 0, "Vacant": 1}
 
 
 def split_sexpr_args(t):
